@@ -178,17 +178,21 @@ var corpus = []string{
 // not lex to the same kind (that is the point).
 
 var lexemeEdits = map[lexer.TokenType][]string{
-	lexer.ItemNode:      {`/u<>`, `/<a>`, `/u<a`, `/u a>`, `_:`, `/u<a>>`, `/u<\<>`, `/_<b>`},
+	lexer.ItemNode:      {`/u<>`, `/<a>`, `/u<a`, `/u a>`, `_:`, `/u<a>>`, `/u<\<>`, `/_<b>`, "/u<\u023a\u023a\u023a\u023a\u023a\u023a>", "/\u023a\u023a\u023a<\u0130\u212a>", "/u<\xff\xfe>"},
 	lexer.ItemBlankNode: {`_:`, `_:1`, `_b`, `/_<>`},
 	lexer.ItemPredicate: {`""@[]`, `"p"@[`, `"p"@[x]`, `"p"@[?t]`, `"p"@[?]`, `"p"@[2006-01-02T15:04:05Z]`,
-		`"p"@[2006-13-45T99:99:99Z]`, `"p"@[2006-01-02]`, `"p\"@[]`, `"p\\"@[]`, `"p"@[?lo,?hi]`, `"p"@ []`, `"P"@[]`},
+		`"p"@[2006-13-45T99:99:99Z]`, `"p"@[2006-01-02]`, `"p\"@[]`, `"p\\"@[]`, `"p"@[?lo,?hi]`, `"p"@ []`, `"P"@[]`, "\"\u023a\u023a\u023a\u023a\u023a\u023a\"@[]", "\"\u0130\u212a\"@[2006-01-02T15:04:05Z]", "\"\xff\xfe\xfd\"@[]"},
 	lexer.ItemPredicateBound: {`"p"@[?lo,?hi]`, `"p"@[?lo,]`, `"p"@[2007-01-01T00:00:00Z,2006-01-01T00:00:00Z]`,
 		`"p"@[x,y]`, `""@[,]`, `"p"@[,,]`, `"p"@[2006-01-01T00:00:00Z,2007-01-01T00:00:00Z]`, `"p"@[,`},
 	lexer.ItemLiteral: {`"1"^^type:INT64`, `"-1"^^type:int64`, `"0"^^type:int64`, `"9223372036854775807"^^type:int64`,
 		`"9223372036854775808"^^type:int64`, `"1.5"^^type:int64`, `"x"^^type:int64`, `"1.5"^^type:float64`, `"NaN"^^type:float64`,
 		`"x"^^type:text`, `""^^type:text`, `"1"^^type:foo`, `"1"^^type:`, `""^^type:int64`, `"1`, `"1"`, `"true"^^type:bool`,
-		`"x"^^type:bool`, `"[1 2]"^^type:blob`, `"[300]"^^type:blob`, `"x"^^type:blob`, `"1"^^type:int64x`, `"1"^^TYPE:int64`, `"a\"b"^^type:text`},
-	lexer.ItemBinding:        {`?`, `?_`, `?zz`, `? a`, `/u<a>`, `"1"^^type:int64`, `?A`},
+		`"x"^^type:bool`, `"[1 2]"^^type:blob`, `"[300]"^^type:blob`, `"x"^^type:blob`, `"1"^^type:int64x`, `"1"^^TYPE:int64`, `"a\"b"^^type:text`,
+		// letters whose lower / upper case has another byte length (U+023A, U+0130, U+212A) and invalid UTF-8: offsets
+		// computed on a case-folded copy do not fit the original text
+		"\"\u023a\u023a\u023a\u023a\u023a\u023a\"^^type:text", "\"\u0130\u0130\u0130\u0130\u0130\u0130\u0130\u0130\u0130\"^^type:text", "\"\u212a\u212a\u212a\u212a\u212a\"^^type:text",
+		"\"\xff\xfe\xfd\xfc\"^^type:text", "\"\u023a\u023a\u023a\u023a\u023a\u023a\u023a\u023a\"^^type:int64", "\"\u023a\"^^TYPE:TEXT"},
+	lexer.ItemBinding:        {`?`, `?_`, `?zz`, `? a`, `/u<a>`, `"1"^^type:int64`, `?A`, "?\u023a\u023a\u023a", "?\u0130"},
 	lexer.ItemTime:           {`2006-01-02`, `x`, `2006-13-45T99:99:99Z`, `9999999999`, `2006-01-02T15:04:05+25:00`, `2006-01-02T15:04:05.999999999Z`},
 	lexer.ItemFilterFunction: {`isTemporal`, `isImmutable`, `nosuch`, `LATEST`, `l8`},
 	lexer.ItemSemicolon:      {``, `;;`, `; select`},
